@@ -149,6 +149,8 @@ NONASCII = list('Ã©ÃŸÃ¿Ã—Ã·Ï€Ð–â†’æ—¥æœ¬èªžâ‚¬ðŸ˜€ð„ž') + ['Â ', 'Ã¿', 'Ä€', 'ß
 # text that is not stable under Unicode normalisation (combining marks, compatibility characters, conjoining jamo) and quoted
 # single characters (a character literal everywhere else - plain text here)
 UNSTABLE = ['e\u0301', '\u2126', '\u212b', '\u1112\u1161\u11ab', 'n\u0303', '\ufb01', '\u00b5', '\u1e9b\u0323']
+# words that start other directives, and a literal TAB, in the middle of the text
+WORDS = ['fatal error in sector 7', ' error ', 'the string table', ' string x', 'a\tb', 'col1\tcol2\t', ' include me', ' align 4', ' # not a comment', '  two  blanks  ']
 QUOTED = ["'q'", "','", "'#'", "' '", "'0'", "';'", "'('", "it's", "'ab'", "''", "'\\n'"]
 ESCAPES = ['\\n', '\\t', '\\r', '\\\\', '\\"', "\\'", '\\0', '\\x41', '\\x7f', '\\x00', '\\xe9', '\\xff', '\\u00e9', '\\u2192', '\\u0041', '\\uffff']
 
@@ -158,8 +160,10 @@ def string_raw(draw):
     parts = []
     n = draw(st.integers(1, 14))
     for _ in range(n):
-        k = draw(st.integers(0, 11))
-        if k == 10:
+        k = draw(st.integers(0, 12))
+        if k == 12:
+            parts.append(draw(st.sampled_from(WORDS)))
+        elif k == 10:
             parts.append(draw(st.sampled_from(UNSTABLE)))
         elif k == 11:
             parts.append(draw(st.sampled_from(QUOTED)))
@@ -239,7 +243,7 @@ def incbytes_case(draw):
     return {
         'size': size,
         'seed': draw(st.integers(0, 2 ** 32)),
-        'where': draw(st.sampled_from(['adjacent', 'incdir', 'subdir_adjacent', 'symlink_dotdot'])),
+        'where': draw(st.sampled_from(['adjacent', 'incdir', 'subdir_adjacent', 'symlink_dotdot', 'absolute'])),
         'cwd': draw(st.sampled_from(['srcdir', 'root', 'elsewhere', 'elsewhere_decoy'])),
         'main_rel': draw(st.booleans()),
         'before': draw(st.integers(0, 3)),
@@ -265,6 +269,13 @@ def judge_incbytes(c, res):
         elif c['where'] == 'incdir':
             target = os.path.join(incdir, name)
             include_dirs = [incdir]
+        elif c['where'] == 'absolute':
+            # the file named by its absolute path (a same-named decoy sits next to the program)
+            os.makedirs(os.path.join(root, 'abs', 'assets'))
+            target = os.path.join(root, 'abs', 'assets', name)
+            written = target
+            with open(os.path.join(srcdir, name), 'wb') as f:
+                f.write(b'DECOY' + blob(c['seed'] + 4, max(0, c['size'] - 5)))
         elif c['where'] == 'symlink_dotdot':
             # src/link -> vendor/pkg, written link/../<name>: the operating system resolves that to vendor/<name>; a textual
             # collapse of "link/.." would name src/<name> instead (an equally long decoy sits there)
@@ -284,7 +295,7 @@ def judge_incbytes(c, res):
             with open(os.path.join(os.path.dirname(target), name.lower()), 'wb') as f:
                 f.write(b'lower' + blob(c['seed'] + 3, max(0, c['size'] - 5)))
         decoy = b'DECOY' + blob(c['seed'] + 1, max(0, c['size'] - 5))
-        if c['cwd'] == 'elsewhere_decoy' and c['where'] != 'symlink_dotdot':
+        if c['cwd'] == 'elsewhere_decoy' and c['where'] not in ('symlink_dotdot', 'absolute'):
             os.makedirs(os.path.join(other, 'sub'), exist_ok=True)
             with open(os.path.join(other, written), 'wb') as f:
                 f.write(decoy)
